@@ -175,6 +175,12 @@ def run_batch(mod, tier, base, n, nworkers, per_run_timeout=120,
                 for fd in [k[0] for k in kids.values()]:
                     os.close(fd)
                 signal.signal(signal.SIGINT, signal.SIG_DFL)
+                if os.environ.get("VERIF_PIN", "1") == "1":
+                    try:
+                        cpus = sorted(os.sched_getaffinity(0))
+                        os.sched_setaffinity(0, {cpus[w % len(cpus)]})
+                    except (AttributeError, OSError):
+                        pass
                 _worker(mod, tier, base, w, nworkers, n, wr, per_run_timeout)
             except BaseException:  # noqa: BLE001
                 traceback.print_exc()
